@@ -61,7 +61,7 @@ fn main() {
     // larger inputs: round trips on structured diagrams, lax composition along long boundaries (structured gluing pairs)
     let st: Vec<_> = ohmc::props::structured::shapes(4).into_iter().map(|x| x.1).collect();
     ctx.run_slice(Slice::new(format!("round-trips-structured[{} diagrams]", st.len()), st.len() as u64, |i, loc| check_roundtrip_strict(&st[i as usize], loc)));
-    let gp = ohmc::props::structured::gluing_pairs(8, 5);
+    let gp = ohmc::props::structured::gluing_pairs(8, 7);
     ctx.run_slice(Slice::new(format!("pairs-structured-gluing[{} pairs]", gp.len()), gp.len() as u64, |i, loc| {
         let (f, g) = (&gp[i as usize].1, &gp[i as usize].2);
         // f carries two pending unifications of its own
